@@ -183,6 +183,7 @@ func c17Binary(bin string, it c17Item) (sig, detail string) {
 			Final bool
 			Lines []int
 			Reads int
+			Fail  int // a statement ending in a runtime error is placed before this read (0: none)
 		}
 		json.Unmarshal([]byte(it.S), &spec)
 		lines := []string{}
@@ -196,6 +197,9 @@ func c17Binary(bin string, it c17Item) (sig, detail string) {
 		// the program echoes every line read between markers
 		var prog strings.Builder
 		for i := 0; i < spec.Reads; i++ {
+			if spec.Fail > 0 && i == spec.Fail {
+				prog.WriteString("x = [1, 2, 3][7]\n")
+			}
 			prog.WriteString("write(\"<\" + read() + \">\")\n")
 		}
 		prog.WriteString("write(\"END\")\n")
@@ -216,6 +220,28 @@ func c17Binary(bin string, it c17Item) (sig, detail string) {
 		}
 		var out string
 		var err error
+		if spec.Fail > 0 && spec.Fail < spec.Reads {
+			if !ok {
+				return "", "" // reading past the end of input is covered without the failing statement
+			}
+			// the failing statement's report (first line) appears between the echoes; a block in -eval ends there
+			if spec.Mode == "-eval" {
+				return "", ""
+			}
+			marker := "RUNTIME ERROR : index error\n"
+			// insert after the echoes of the reads before it
+			cut := 0
+			for i := 0; i < spec.Fail && i < len(lines); i++ {
+				if i < len(lines)-1 || spec.Final {
+					cut += len("<" + lines[i] + "\n>")
+				} else if lines[i] != "" {
+					cut += len("<" + lines[i] + ">")
+				}
+			}
+			if cut <= len(want) {
+				want = want[:cut] + marker + want[cut:]
+			}
+		}
 		if spec.Mode == "-eval" {
 			body := "{\n" + strings.ReplaceAll(prog.String(), "\n", "\n") + "}"
 			out, err = runCalc(bin, stdin, "-eval", body)
@@ -266,7 +292,7 @@ func init() {
 	core.Register(&core.Check{
 		ID:    "C17",
 		Level: "exploration",
-		Rule: "toa(x) against write(x) for every value of a 57-value alphabet (all kinds, boundary ints, floats incl. ±Inf, NaN, -0, subnormal and max, strings with quotes and line breaks, arrays nested to depth 3 containing functions) bound to a global; aton(toa(n)) == n for 16 boundary ints and 210 finite floats (powers of two, decimal fractions, subnormal, max); fromto(a, b) for all a, b in -3..3 and around 2^63-1 and -2^63; elems / indices (alone and zipped) over every array and string of length 0..4; wrong kinds and arities for all eight built-ins; through the built binary: every stdin of <= 3 lines from {\"a\", \"\", 5000 characters, \"two words\"} with and without final line break x 0..4 read() calls in -eval and file mode, and exit() with int, boundary and non-int arguments. " +
+		Rule: "toa(x) against write(x) for every value of a 57-value alphabet (all kinds, boundary ints, floats incl. ±Inf, NaN, -0, subnormal and max, strings with quotes and line breaks, arrays nested to depth 3 containing functions) bound to a global; aton(toa(n)) == n for 16 boundary ints and 210 finite floats (powers of two, decimal fractions, subnormal, max); fromto(a, b) for all a, b in -3..3 and around 2^63-1 and -2^63; elems / indices (alone and zipped) over every array and string of length 0..4; wrong kinds and arities for all eight built-ins; through the built binary: every stdin of <= 3 lines from {\"a\", \"\", 5000 characters, \"two words\"} with and without final line break x 0..4 read() calls in -eval and file mode (in file mode also with a statement that ends in a runtime error between any two reads), and exit() with int, boundary and non-int arguments. " +
 			"Oracle: the stated contracts computed by the reference model. distinct = distinct item; non-trivial = all but the empty-input cases",
 		Assumptions:     []string{"values are injected with the exported memory.SetGlobal", "a last input line without line break counts as a line; reading past the end of input is the read error"},
 		NeedsCalcBinary: true,
@@ -412,6 +438,14 @@ func c17Run(w *core.W) {
 					spec, _ := json.Marshal(map[string]any{"Mode": mode, "Final": final, "Lines": ls, "Reads": reads})
 					if !emit(c17Item{Kind: "read", S: string(spec)}) {
 						return
+					}
+					if mode == "file" && reads >= 2 {
+						for f := 1; f < reads; f++ {
+							spec, _ := json.Marshal(map[string]any{"Mode": mode, "Final": final, "Lines": ls, "Reads": reads, "Fail": f})
+							if !emit(c17Item{Kind: "read", S: string(spec)}) {
+								return
+							}
+						}
 					}
 				}
 			}
